@@ -20,7 +20,7 @@ use crate::run::{Params, Run};
 use crate::runq::{tmp_file, CapturePrinter};
 use crate::util::{catch, Caught, Rng};
 
-const TS_DEFS: &str = "CREATE TABLE t(line = '^([^;]*);([^;]*);([^;]*);([^;]*);([^;]*);([^;]*);([^;]*);([^;]*)$', line[1], line[2], line[3], line[4], line[5], line[6], line[7] => ts TIMESTAMP, line[8] => iv INTERVAL, line[1], line[2] => arr INT[], line[8] => x TEXT);\nCREATE TABLE j({.a} => a INT, {.b[0]} => b REAL, {.c.d} => c TEXT DEFAULT 'z', {.t} => t TIMESTAMP CONVERT, {.i} => i INTERVAL CONVERT);";
+const TS_DEFS: &str = "CREATE TABLE t(line = '^([^;]*);([^;]*);([^;]*);([^;]*);([^;]*);([^;]*);([^;]*);([^;]*)$', line[1], line[2], line[3], line[4], line[5], line[6], line[7] => ts TIMESTAMP, line[8] => iv INTERVAL, line[1], line[2] => arr INT[], line[8] => x TEXT, line[1], line[2], line[3], line[4], line[5], line[6], line[7], line[6] => ts8 TIMESTAMP, line[1], line[2], line[3], line[4], line[5], line[6], line[7], line[1], line[2] => ts9 TIMESTAMP MICROSECONDS);\nCREATE TABLE j({.a} => a INT, {.b[0]} => b REAL, {.c.d} => c TEXT DEFAULT 'z', {.t} => t TIMESTAMP CONVERT, {.i} => i INTERVAL CONVERT);";
 
 use crate::gen::awkward_text;
 
@@ -49,7 +49,7 @@ fn json_line(rng: &mut Rng) -> String {
 }
 
 const TS_QUERIES: &[&str] = &[
-    "SELECT ts, iv, arr, x FROM t", "SELECT * FROM t", "SELECT ts + iv, ts - ts, iv + iv, iv - iv FROM t", "SELECT MIN(ts), MAX(ts), SUM(iv), AVG(iv), COUNT(*) FROM t",
+    "SELECT ts, iv, arr, x FROM t", "SELECT * FROM t", "SELECT ts8, ts9, ts FROM t", "SELECT SUM(iv), AVG(iv), STDDEV(iv), VARIANCE(iv) FROM t", "SELECT COUNT(*) FROM t HAVING SUM(iv) > iv", "SELECT ts + iv, ts - ts, iv + iv, iv - iv FROM t", "SELECT MIN(ts), MAX(ts), SUM(iv), AVG(iv), COUNT(*) FROM t",
     "SELECT EXTRACT(EPOCH FROM ts), EXTRACT(YEAR FROM ts), date_trunc('hour', ts), date_trunc('day', ts), date_trunc('year', ts) FROM t",
     "SELECT ts FROM t WHERE ts > '2018-11-04 00:30:00'", "SELECT ts FROM t WHERE ts > x", "SELECT x FROM t WHERE make_timestamp(2020, 1, 1, 0, 0, 0, 0, 0) < x", "SELECT x FROM t WHERE x >= make_timestamp(2005, 6, 17, 7, 7, 7, 0, 0) OR x = ts", "SELECT x::timestamp, x::interval, iv::int, iv::real, ts::text, iv::text FROM t",
     "SELECT arr[1], arr[0], arr[9223372036854775807], arr[-9223372036854775807 - 1], array_unique(arr), array_length(arr) FROM t",
@@ -230,7 +230,12 @@ pub fn scan(run: &mut Run, rng: &mut Rng, n: usize) {
         match i % 4 {
             0 => {
                 let nl = rng.below(6) + 1;
-                let lines: Vec<String> = (0..nl).map(|_| ts_line(rng)).collect();
+                let mut lines: Vec<String> = (0..nl).map(|_| ts_line(rng)).collect();
+                // one file in six: every line has a legal but huge INTERVAL, so that SUM / AVG / STDDEV over the column leave the range
+                if rng.chance(1, 6) {
+                    let huge = *rng.pick(&["2000000000000:00:00", "-2000000000000:00:00", "2562047788015:00:00", "1500000000000:59:59"]);
+                    lines = (0..2 + rng.below(3)).map(|i| format!("2020;1;{};0;0;0;0;{}", 1 + i, huge)).collect();
+                }
                 let q = *rng.pick(TS_QUERIES);
                 progress(q);
                 run_formats(run, TS_DEFS, q, &[join_lines(&lines)]);
